@@ -287,3 +287,22 @@ class Check:
               f"distinct {cov['distinct_nontrivial']}, violations {len(self.violations)}, "
               f"known findings {len(self.known_seen)}, {ev['wall_s']} s")
         sys.exit(rc)
+
+
+def guarded(main, pid):
+    """run a check's main(); an implementation that cannot even be imported / driven is reported as a violation
+    of the correspondence (no failing input of the property itself was found)"""
+    try:
+        main()
+    except ImplCrash as ex:
+        work = os.path.join(ROOT, ".work", pid); os.makedirs(work, exist_ok=True)
+        path = os.path.join(work, "replay_crash.json")
+        json.dump({"property": pid, "what": "the implementation worker crashed; correspondence cannot be established",
+                   "unchecked": f"correspondence {ex.script}", "stderr": ex.err}, open(path, "w"), indent=1)
+        ev = {"property_id": pid, "tier": os.environ.get("VERIF_TIER", "quick"), "seed": int(os.environ.get("VERIF_SEED", "20260926")),
+              "level": "proof", "coverage": {"obligations": 1, "discharged": 0, "checker_cmd": f"./check {pid}",
+              "trusted_base": TRUSTED_BASE, "evaluations": 1, "distinct_nontrivial": 0, "samples": [ex.err[-500:]]},
+              "wall_s": 0.0, "violations": 1}
+        json.dump(ev, open(os.path.join(ROOT, "evidence", f"{pid}.json"), "w"), indent=1)
+        print(f"VIOLATION property={pid} replay={path} no-failing-input-found")
+        sys.exit(1)
